@@ -4,6 +4,7 @@ package execution
 
 import (
 	"context"
+	"strings"
 	"time"
 
 	"grog/internal/config"
@@ -195,4 +196,24 @@ func VerifC14_O_every_declared_output() {
 	sym.Assert((err == nil) == all, "C14.O6.success-iff-every-declared-output-exists")
 	sym.Assert(cacheEntryExists(p, t.ChangeHash) == all, "C14.O6.cached-iff-every-declared-output-exists")
 	sym.Reach("C14.O.outputs")
+}
+
+// O7: an expected_output check compares the whole (white-space trimmed) output of the check command with
+// the whole expectation - symbolic texts on both sides, so "1.2.3" vs "1.2.30" is inside the search space
+func VerifC14_O_expected_output_is_compared_whole() {
+	newWorld()
+	n := 2
+	if sym.Tier() == "thorough" {
+		n = 3
+	}
+	expected := sym.StringNAlpha("expected", n, "a0 ")
+	actual := sym.StringNAlpha("actual", n+1, "a0 \n")
+	sym.Assume(expected != "") // an empty expectation means "no expectation"
+	cmdModel["check"] = &cmdBehaviour{out: actual}
+	t := fileTarget("g", "")
+	t.OutputChecks = []model.OutputCheck{{Command: "check", ExpectedOutput: expected}}
+	err := runOutputChecks(context.Background(), t, nil, nil)
+	want := sym.StrEq(strings.TrimSpace(expected), strings.TrimSpace(actual))
+	sym.Assert(sym.Iff(err == nil, want), "C14.O7.expected-output-compared-whole-after-trimming")
+	sym.Reach("C14.O.expected-output")
 }
